@@ -488,3 +488,57 @@ prop(
     jobs=[{"test": "TestC20", "rapid": False, "exhaustive": True, "timeout": 600, "shards": 3, "thorough": {"shards": 16, "timeout": 2400}}],
     floor={"quick": 50, "thorough": 1000},
 )
+
+
+# ---- texts revised after the false-alarm hunt (DESIGN.md §10.7): what each narrowed oracle asserts now ------------------
+def _revise(pid, level_text=None, add_assumptions=(), replace_assumption=None):
+    c = PROPS[pid]
+    if level_text:
+        c["level_text"] = level_text
+    if replace_assumption:
+        old, new = replace_assumption
+        c["assumptions"] = [new if a.startswith(old) else a for a in c["assumptions"]]
+    c["assumptions"] = list(c["assumptions"]) + list(add_assumptions)
+
+
+_revise("C06", level_text=(
+    "detection on the writer's output and its re-encodings returns exactly the written format; on every input it never panics, returns format xor error and leaves the "
+    "stream at offset 0; a reported JSON format is declared by the top-level members (necessary condition, independent decode) and agrees with the format's type / version / "
+    "encoding accessors; a following ParseStream / ParseFile sees the whole document."))
+_revise("C07", level_text=(
+    "every write returns error xor non-empty output, without panic, watchdog hit (10 s) or process death (journalled case re-executed alone), and equals the output of writing the "
+    "same document again - the same object through all formats twice, another document in between, and a fresh object through a fresh writer - so that anything a serializer "
+    "leaves behind in its input or in the writer shows as history dependence. (That a serializer does not modify its input at all is C11's clause.)"),
+    replace_assumption=("outputs are compared as JSON", "outputs are compared as JSON with creation timestamps blanked (members named created / timestamp, and any string that is a timestamp "
+                        "of the current hour) and every array sorted (a sound over-approximation of 'up to the order of set-valued arrays'); output that is not JSON is compared line by line "
+                        "without its creation-time lines"))
+_revise("C08", add_assumptions=["'normalised' is what the statement says: at most one edge per source and type, no repeated targets (an edge without targets breaks neither)",
+                                "when relating fails, and what exactly it adds, is not part of the statement: only well-formedness is asserted for the relate operations"])
+_revise("C09", add_assumptions=["list-valued attributes are compared as sets; when a present-but-all-zero date is involved either operand's value is accepted ('non-empty' is not defined for it)"])
+_revise("C10", add_assumptions=["list-valued attributes are compared as sets; when a present-but-all-zero date is involved either operand's value is accepted ('non-empty' is not defined for it)"])
+_revise("C11", add_assumptions=["methods the harness cannot classify or cannot build arguments for (added after it was written) are counted in the evidence, not called"])
+_revise("C12", add_assumptions=["'compares equal' is decided by the type's own Equal (content to the second where a type has none); the five kinds the statement names are covered",
+                                "what an operation does to the order inside its operands is C11's clause: operands are re-snapshotted after every operation and compared after every edit of a result"])
+_revise("C13", add_assumptions=["whether an empty non-nil collection equals an absent one is not stated: generated values never mix the two representations",
+                                "a repeated member of a set-valued attribute is no change of content"])
+_revise("C14", add_assumptions=["removed list entries may be applied as 'every equal entry' or 'one entry per removed element': either way must rebuild the second node's attributes (as sets)"])
+_revise("C15", add_assumptions=["a start identifier that is no node of the list is outside 'all start nodes': only termination is asserted for it",
+                                "that an extraction leaves its receiver untouched is C11's clause; here a changed receiver shows as a wrong result of a later extraction"])
+_revise("C16", add_assumptions=["with purls in the alternative spelling pkg:/type/... in play the matching rule is asserted only as far as textual and normalised comparison agree",
+                                "identifier types are queried by the spellings the library names itself; any error is accepted as the ambiguity report"])
+_revise("C17", level_text=(
+    "no race report, no runtime abort; every parse / write / detection result equals the sequential result computed beforehand; constructors return instances configured with their own "
+    "options; the registry call/return histories on private keys are linearizable w.r.t. a map model (porcupine), the driver returned by a lookup being identified by what it does; the "
+    "first calls of a fresh process, made concurrently, report what the same calls report one after the other in another fresh process."))
+_revise("C18", add_assumptions=["option groups are compared by value (they carry markers), not by pointer; instances built with nil-valued options are excluded from assertions about their own state",
+                                "expectations about a per-call option set come from what the caller put into it, not from re-reading it after a call"])
+_revise("C19", level_text=(
+    "invariant over histories against a map model: successful store then retrieve gives a proto.Equal document, other ids unaffected, every created path lies inside the configured "
+    "directory, a missing directory is created and usable, no-clobber refuses and preserves, and every failure is an error return of a child that exits 0 (never a process exit, panic or "
+    "silently empty document)."),
+    add_assumptions=["a store may refuse an unusual identifier with an error return (counted); one-letter identifiers in a healthy directory must be storable",
+                     "the entry file of an identifier is found by diffing the tree around its first store, not by knowing the naming scheme"])
+_revise("C20", level_text=(
+    "fault enumeration: every system-call boundary of the traced store and torn prefixes of every write (taken from the bytes the traced run really wrote); retrieve must return an error, "
+    "the complete old document or the complete new document (proto.Equal), the neighbour entry must be intact, the uncrashed state must return the new document; after a further store in "
+    "a crash state (which may be refused) retrieve must again return an error or one of the complete documents."))
